@@ -175,6 +175,11 @@ def _check_fields(ctx, op, verifier, path, rec, cname):
             pay = unversion(e.value)[1][0]
             if not (pay[0] == 'elem' and pay[1] == rec['cards']):
                 problems.append('records cards other than the ones discarded')
+    if cname == 'HoleCardsShowingOrMucking' and 'hole_cards' in rec:
+        # the verifier returns (status, cards as tabled, completed hole cards, facings, player): the log says what was tabled
+        v = rec['hole_cards']
+        if not (v[0] == 'proj' and v[2] == 1 and v[1][0] == 'mcall' and v[1][2] == verifier):
+            problems.append('records something other than the cards the player tabled (second value of the verifier)')
     if cname == 'RunoutCountSelection' and 'runout_count' in rec:
         if rec['runout_count'] != ('name', 'runout_count'):
             problems.append('records a runout count other than the one chosen')
